@@ -147,11 +147,29 @@ def joinComps : List Bytes → Bytes
   | [c] => c
   | c :: cs => c ++ [47] ++ joinComps cs
 
-/-- does the pattern match the entry whose path relative to the ignore file's directory is `rel` -/
+/-- `is_glob_special`: `*`, `?`, `[`, `\` -/
+def isGlobSpecial (c : Nat) : Bool := c == 42 || c == 63 || c == 91 || c == 92
+
+/-- `simple_length`: the length of the pattern's literal prefix (`nowildcardlen`) -/
+def simpleLen (p : List Nat) : Nat := (p.takeWhile fun c => !isGlobSpecial c).length
+
+/-- `fspathncmp` -/
+def eqFold (ci : Bool) (a b : Bytes) : Bool := if ci then a.map toLower == b.map toLower else a == b
+
+/-- `match_pathname`: the literal prefix is compared first and `wildmatch` runs on what is left of pattern and
+path — so a `**` that directly follows the literal prefix stands "at the start of the pattern" for `wildmatch`
+and spans directories (`/b**` matches `b/x/y`, although gitignore(5) calls such asterisks regular). -/
+def matchPathname (ci : Bool) (text name : Bytes) : Bool :=
+  let k := simpleLen text
+  decide (k ≤ name.length) && eqFold ci (text.take k) (name.take k) &&
+    wm ci true true (text.drop k) (name.drop k)
+
+/-- does the pattern match the entry whose path relative to the ignore file's directory is `rel`
+(`match_basename` for patterns without `/`, `match_pathname` otherwise) -/
 def patMatches (ci : Bool) (pat : Pat) (rel : List Bytes) (isDir : Bool) : Bool :=
   (!pat.mustBeDir || isDir) &&
   (if pat.noDir then wm ci false true pat.text (rel.getLast?.getD [])
-   else wm ci true true pat.text (joinComps rel))
+   else matchPathname ci pat.text (joinComps rel))
 
 /-- verdict of one ignore file: the last matching pattern wins -/
 def fileVerdict (ci : Bool) (lines : List (List Nat)) (rel : List Bytes) (isDir : Bool) : Option Bool :=
